@@ -298,9 +298,14 @@ def check_bulk(ctx, rep, INNER_FN, se, pr):
                     return strip(c["term"])
             return None
 
-        if len(views) == 1 and not others_on_A and view_term(views[0]) is not None:
+        # upper-casing may run over the prefix view or over the whole array: the zero padding is
+        # unchanged by make_ascii_uppercase
+        up_on_A = [c for c in others_on_A if c["name"].endswith("make_ascii_uppercase")]
+        others_on_A = [c for c in others_on_A if c not in up_on_A]
+        if len(views) == 1 and not others_on_A and len(up_on_A) <= 1 and view_term(views[0]) is not None:
             V = view_term(views[0])
-            onV = [c for c in calls if c.get("locargs") and c["locargs"][0][0] == "ref" and c["locargs"][0][2] and strip(c["locargs"][0][1]) == V]
+            onV = [c for c in calls if c.get("locargs") and c["locargs"][0][0] == "ref" and c["locargs"][0][2] and strip(c["locargs"][0][1]) == V] + up_on_A
+            onV.sort(key=lambda c: c["site"][1])
             names = [c["name"].split("::")[-1] for c in onV]
             desc = "prefix view written by %s" % names
             if names == ["copy_from_slice", "make_ascii_uppercase"]:
